@@ -91,9 +91,48 @@ def main():
             for kk in by_label.get(o, []): todo += (out[kk]["dependents"] or [])
         v["closure"] = sorted(seen); v["props"] = sorted(props)
     path = os.path.join(VERIF, "label_deps.json")
-    if only and os.path.exists(path):
-        old = json.load(open(path)); old["clauses"].update(out); out = old["clauses"]
-    json.dump({"contracts_hash": contracts_hash(), "clauses": out}, open(path, "w"), indent=0, sort_keys=True)
+    prev = json.load(open(path)) if os.path.exists(path) else {}
+    if only and prev:
+        oc = prev.get("clauses", {}); oc.update(out); out = oc
+    # ---- phase 2: defining axioms.  A repo function that is verified AGAINST a defining axiom (AsRef::as_ref against ax_asref_*,
+    # Serialize::serialize against ax_json_*) has no labelled clause of its own; what rests on it is what rests on the axiom.
+    fn_body_props = dict(prev.get("fn_body_props", {})); axioms = dict(prev.get("axioms", {}))
+    if not only or "--axioms" in sys.argv:
+        spans = []
+        for m in re.finditer(r"pub broadcast axiom fn (ax_(?:asref|json|keytype)\w*)", text):
+            st = m.start(); e = text.find("ensures", st); semi = text.find(";", e)
+            if e < 0 or semi < 0: continue
+            spans.append((m.group(1), e, semi))
+        print("axioms:", len(spans), file=sys.stderr)
+        def one_ax(sp):
+            name, e, semi = sp
+            body = text[e + len("ensures"):semi]
+            # keep the trigger terms (a broadcast axiom without trigger is rejected) but make the statement trivial
+            t2 = text[:e] + "ensures true || (" + body.replace(",\n", " &&\n") + ")" + text[semi:]
+            p = os.path.join(work, "a_%s.rs" % name)
+            open(p, "w").write(t2)
+            r = runner.run_verus(p)
+            os.remove(p)
+            if r["json"] is None and not r["diags"]: return (name, None)
+            fails, frontend, canary = runner.classify(r, lmap, fns_by_key)
+            if frontend: return (name, None)
+            return (name, fails)
+        with ThreadPoolExecutor(max_workers=3) as ex:
+            for name, fails in ex.map(one_ax, spans):
+                if fails is None: axioms[name] = {"definers": None}; continue
+                definers = sorted(set(f["fn"] for f in fails if f["fn"] and not f["label"] and fns_by_key.get(f["fn"], {}).get("fn") in ("as_ref", "serialize", "deref", "len")))
+                deps = sorted(set(f["obligation"] for f in fails if not (f["fn"] in definers and not f["label"])))
+                props = set()
+                seen = set(); todo = list(deps)
+                while todo:
+                    o = todo.pop()
+                    if o in seen: continue
+                    seen.add(o); props |= props_of(o)
+                    for kk in by_label.get(o, []): todo += (out[kk]["dependents"] or [])
+                axioms[name] = {"definers": definers, "dependents": deps, "props": sorted(props)}
+                for d in definers: fn_body_props[d] = sorted(set(fn_body_props.get(d, [])) | props)
+                print(name, definers, sorted(props), file=sys.stderr)
+    json.dump({"contracts_hash": contracts_hash(), "clauses": out, "axioms": axioms, "fn_body_props": fn_body_props}, open(path, "w"), indent=0, sort_keys=True)
     shutil.rmtree(work, ignore_errors=True)
     print("wrote", path, len(out))
 if __name__ == "__main__":
